@@ -572,7 +572,7 @@ func main() {
 
 	wp, wd := newWorld(false), newWorld(true)
 	cw := vh.NewCases(a, "From Coq Require Import List ZArith Bool.\nFrom Verif Require Import C19.Model.\nImport ListNotations.\nOpen Scope Z_scope.", "case", "mismatches", perShard)
-	wdg := vh.NewWatchdog(rep, 60*time.Second)
+	wdg := vh.NewWatchdog(rep, 180*time.Second)
 	idx := 0
 	discarded := 0
 	for pi := 0; pi < nProg; pi++ {
